@@ -179,6 +179,7 @@ theorem C16_source_chunk_header_fields (h : GoSrc.T_chunkHeader) (data : Array (
         (c ≤ Gen.lzma_cLR → err = Go.Err.nil) :=
   GoSrcP.chunkHeader_Unmarshal_spec h data hne hsz
 
-theorem C16_source_translation_complete : GoSrc.failures = [] := by decide
+-- (that every function on the translation list was translated is required once, in Props/C02 and Props/C03; a function of
+-- this property that fell out of the translator's subset would make the theorems above fail to elaborate)
 
 end Props.C16
